@@ -214,70 +214,83 @@ func TestC10(t *testing.T) {
 						body := make([]byte, 20)
 						binary.BigEndian.PutUint16(body, 40001)
 						binary.BigEndian.PutUint16(body[2:], 7)
-						tr := packetFor(n, src, dst, p, nil)
-						tr.SetSCMP(130, 0, body)
-						traw, tlay := tr.Serialize()
-						for h, off := range tlay.HopOff {
-							for _, flag := range []byte{2, 1} { // I: ConsIngress alert, E: ConsEgress alert
-								ifID := binary.BigEndian.Uint16(traw[off+2:])
-								if flag == 1 {
-									ifID = binary.BigEndian.Uint16(traw[off+4:])
-								}
-								if ifID == 0 {
-									continue // no interface on that side of the hop field
-								}
-								tam := append([]byte{}, traw...)
-								tam[off] |= flag
-								o := n.Inject(tam, src, firstBR(n, src, p))
-								// the AS owning hop h (by position on the walked path) and whether the path really uses ifID there
-								wantAS := asSeq[c04HopOwner(traw, tlay)[h]]
-								used := false
-								for _, c := range base.Crossings {
-									if (c.From == wantAS && c.FromIf == ifID) || (c.To == wantAS && c.ToIf == ifID) {
-										used = true
+						for extv := 0; extv < 4; extv++ {
+							if extv > 0 && (extv != 1+int(walks)%3) {
+								continue // plain request always; one of the three extension-header layouts per path, rotating
+							}
+							tr := packetFor(n, src, dst, p, nil)
+							pad := []byte{1, 4, 0, 0, 0, 0}
+							tr.HasHBH, tr.HasE2E = extv&1 != 0, extv&2 != 0
+							if tr.HasHBH {
+								tr.HBH = pad
+							}
+							if tr.HasE2E {
+								tr.E2E = pad
+							}
+							tr.SetSCMP(130, 0, body)
+							traw, tlay := tr.Serialize()
+							for h, off := range tlay.HopOff {
+								for _, flag := range []byte{2, 1} { // I: ConsIngress alert, E: ConsEgress alert
+									ifID := binary.BigEndian.Uint16(traw[off+2:])
+									if flag == 1 {
+										ifID = binary.BigEndian.Uint16(traw[off+4:])
 									}
-								}
-								if !used {
-									continue // interface of a cut shortcut hop field, not traversed
-								}
-								trCheck := func(o netsim.Outcome) func(b []byte) string {
-									return func(b []byte) string {
+									if ifID == 0 {
+										continue // no interface on that side of the hop field
+									}
+									tam := append([]byte{}, traw...)
+									tam[off] |= flag
+									o := n.Inject(tam, src, firstBR(n, src, p))
+									// the AS owning hop h (by position on the walked path) and whether the path really uses ifID there
+									wantAS := asSeq[c04HopOwner(traw, tlay)[h]]
+									used := false
+									for _, c := range base.Crossings {
+										if (c.From == wantAS && c.FromIf == ifID) || (c.To == wantAS && c.ToIf == ifID) {
+											used = true
+										}
+									}
+									if !used {
+										continue // interface of a cut shortcut hop field, not traversed
+									}
+									trCheck := func(o netsim.Outcome) func(b []byte) string {
+										return func(b []byte) string {
+											if len(b) < 20 || binary.BigEndian.Uint16(b) != 40001 || binary.BigEndian.Uint16(b[2:]) != 7 ||
+												binary.BigEndian.Uint64(b[4:]) != uint64(tp.ASes[wantAS].IA) || binary.BigEndian.Uint64(b[12:]) != uint64(ifID) {
+												return fmt.Sprintf("traceroute reply body %x, want id 40001 seq 7 IA %s interface %d", b[:min(20, len(b))], tp.ASes[wantAS].IA, ifID)
+											}
+											st := o.Steps[o.SCMPStep]
+											if tp.ASes[wantAS].BROf[ifID] != st.BR {
+												return fmt.Sprintf("answered by border router %d, interface %d is owned by %d", st.BR, ifID, tp.ASes[wantAS].BROf[ifID])
+											}
+											return ""
+										}
+									}
+									// the flagged interface is an egress interface of the path and its link is down: the traceroute request
+									// is still answered by the router owning the interface (the statement makes no exception)
+									for _, c := range base.Crossings {
+										if c.From != wantAS || c.FromIf != ifID {
+											continue
+										}
+										rtd := n.Routers[c.From][tp.ASes[c.From].BROf[c.FromIf]]
+										origL := rtd.VerifLink(c.FromIf)
+										rtd.VerifSetLink(c.FromIf, downLink{origL})
+										od := n.Inject(tam, src, firstBR(n, src, p))
+										rtd.VerifSetLink(c.FromIf, origL)
+										judge(n, tp, fmt.Sprintf("traceroute+ifdown:%s|hop=%d|flag=%d|ext=%d", pkey, h, flag, extv), od, src, wantAS, 131, 40001, trCheck(od))
+									}
+									judge(n, tp, fmt.Sprintf("traceroute:%s|hop=%d|flag=%d|ext=%d", pkey, h, flag, extv), o, src, wantAS, 131, 40001, func(b []byte) string {
 										if len(b) < 20 || binary.BigEndian.Uint16(b) != 40001 || binary.BigEndian.Uint16(b[2:]) != 7 ||
 											binary.BigEndian.Uint64(b[4:]) != uint64(tp.ASes[wantAS].IA) || binary.BigEndian.Uint64(b[12:]) != uint64(ifID) {
 											return fmt.Sprintf("traceroute reply body %x, want id 40001 seq 7 IA %s interface %d", b[:min(20, len(b))], tp.ASes[wantAS].IA, ifID)
 										}
+										// answered by the router owning the flagged interface
 										st := o.Steps[o.SCMPStep]
 										if tp.ASes[wantAS].BROf[ifID] != st.BR {
 											return fmt.Sprintf("answered by border router %d, interface %d is owned by %d", st.BR, ifID, tp.ASes[wantAS].BROf[ifID])
 										}
 										return ""
-									}
+									})
 								}
-								// the flagged interface is an egress interface of the path and its link is down: the traceroute request
-								// is still answered by the router owning the interface (the statement makes no exception)
-								for _, c := range base.Crossings {
-									if c.From != wantAS || c.FromIf != ifID {
-										continue
-									}
-									rtd := n.Routers[c.From][tp.ASes[c.From].BROf[c.FromIf]]
-									origL := rtd.VerifLink(c.FromIf)
-									rtd.VerifSetLink(c.FromIf, downLink{origL})
-									od := n.Inject(tam, src, firstBR(n, src, p))
-									rtd.VerifSetLink(c.FromIf, origL)
-									judge(n, tp, fmt.Sprintf("traceroute+ifdown:%s|hop=%d|flag=%d", pkey, h, flag), od, src, wantAS, 131, 40001, trCheck(od))
-								}
-								judge(n, tp, fmt.Sprintf("traceroute:%s|hop=%d|flag=%d", pkey, h, flag), o, src, wantAS, 131, 40001, func(b []byte) string {
-									if len(b) < 20 || binary.BigEndian.Uint16(b) != 40001 || binary.BigEndian.Uint16(b[2:]) != 7 ||
-										binary.BigEndian.Uint64(b[4:]) != uint64(tp.ASes[wantAS].IA) || binary.BigEndian.Uint64(b[12:]) != uint64(ifID) {
-										return fmt.Sprintf("traceroute reply body %x, want id 40001 seq 7 IA %s interface %d", b[:min(20, len(b))], tp.ASes[wantAS].IA, ifID)
-									}
-									// answered by the router owning the flagged interface
-									st := o.Steps[o.SCMPStep]
-									if tp.ASes[wantAS].BROf[ifID] != st.BR {
-										return fmt.Sprintf("answered by border router %d, interface %d is owned by %d", st.BR, ifID, tp.ASes[wantAS].BROf[ifID])
-									}
-									return ""
-								})
 							}
 						}
 					}
